@@ -88,7 +88,9 @@ BuiltinOk(r) ==
     IN  CASE r.fn = "floor" -> y = I(Floor(x)) /\ ~r.yf
           [] r.fn = "ceil" -> y = I(Ceil(x)) /\ ~r.yf
           [] r.fn = "trunc" -> y = I(Trunc(x)) /\ ~r.yf
-          [] r.fn = "round" -> y[2] = 1 /\ y[1] \in Nearest(x) /\ ~r.yf
+          [] r.fn = "round" -> /\ y[2] = 1 /\ y[1] \in Nearest(x) /\ ~r.yf
+                               \* "the nearest integer" leaves ties open; the manual's table settles two of them
+                               /\ (x = <<3, 2>> => y[1] = 2) /\ (x = <<-3, 2>> => y[1] = -2)
           [] r.fn = "cycle" -> Near(y, Mod(x, I(360)), Eps)
           [] r.fn = "sqrt" -> Le(I(0), y) /\ Near(Sq(y), x, Mul(Eps, Add(x, I(1))))
           [] r.fn = "sin" -> Near(Sq(y), Sin2(r.deg), Eps) /\ Sgn(y[1]) \in {SinSign(r.deg), 0} /\ (SinSign(r.deg) = 0 => Near(y, I(0), Eps))
